@@ -331,3 +331,6 @@ def nontrivial(line):
         t = line.split(" ")
         return line if (t[3] not in ("0", "1") and t[4] not in ("0", "1", "-1")) else None
     return line
+
+# source pins: the C files the Lean model cites (see tools/pins.py)
+PINS = [('mpn/generic/powlo.c', None), ('mpn/generic/powm.c', None), ('mpz/invert.c', None), ('mpz/n_pow_ui.c', None), ('mpz/pow_ui.c', None), ('mpz/powm.c', None), ('mpz/powm_ui.c', None), ('mpz/ui_pow_ui.c', None)]
